@@ -287,6 +287,34 @@ func verdict(c Case) (accepted bool, res lib.Res, schema string, ok bool) {
 	return res.OK, res, schema, true
 }
 
+// verdictAsType: the same text used as a user type that two root schemas share (the type object is
+// also checked on its own first in half of the cases): what Check says about the rules of a text
+// does not depend on whether it is the root or a type of the root, nor on how often the type object
+// has been compiled before. Returns the three verdicts (type alone, root 1, root 2).
+func verdictAsType(schema string, checkTypeFirst bool) (alone, r1, r2 lib.Res) {
+	ty := js.New("@case", schema)
+	for _, n := range types {
+		n := n
+		lib.Safe(func() error { return ty.AddType(n.Name, js.New(n.Name, n.Text)) })
+	}
+	alone = lib.Res{OK: true}
+	if checkTypeFirst {
+		alone = lib.Check(ty)
+	}
+	mk := func(name string) lib.Res {
+		root := js.New(name, "@case")
+		if a := lib.Safe(func() error { return root.AddType("@case", ty) }); !a.OK {
+			return a
+		}
+		for _, n := range types {
+			n := n
+			lib.Safe(func() error { return root.AddType(n.Name, js.New(n.Name, n.Text)) })
+		}
+		return lib.Check(root)
+	}
+	return alone, mk("root1"), mk("root2")
+}
+
 func permutations(n int) [][]int {
 	if n == 0 {
 		return [][]int{{}}
@@ -331,6 +359,25 @@ func checkAllOrders(t run.TB, c Case, allPerms bool) (judged bool) {
 		}
 		if judged && acc != want {
 			run.Fail(t, chk, pc, "Check(%q) accepted=%v (%v); the applicability clauses say accept=%v (%s)", schema, acc, res, want, why)
+		}
+		if !pc.IsProp || true {
+			// as a shared user type (roots see the type's own root node: "optional" has no property to
+			// sit on there, so such cases are judged as non-properties are)
+			hasOptional := false
+			for _, a := range pc.Rules {
+				hasOptional = hasOptional || a.Name == "optional"
+			}
+			if !hasOptional || pc.IsProp {
+				alone, v1, v2 := verdictAsType(schema, len(schema)%2 == 0)
+				for _, v := range []lib.Res{alone, v1, v2} {
+					if v.Panic != "" {
+						run.Fail(t, chk, pc, "Check panicked on %q used as a shared type: %s", schema, v.Panic)
+					}
+				}
+				if v1.OK != acc || v2.OK != acc || (len(schema)%2 == 0 && alone.OK != acc) {
+					run.Fail(t, chk, pc, "Check(%q) accepted=%v as a root, but as a type shared by two roots: checked alone %v, root 1 %v, root 2 %v", schema, acc, alone, v1, v2)
+				}
+			}
 		}
 		if first == nil {
 			a := acc
